@@ -91,6 +91,23 @@ func genC20(tier string, r *rng) {
 			add(file.Info{Description: "p", Children: []file.Info{{Description: "c", Children: []file.Info{{Description: "g", Attributes: []file.Attribute{{Name: "k", Value: s}}}}}}})
 		}
 	}
+	// leading white space (ASCII and the other unicode.IsSpace runes) in every field that starts an output line, and in
+	// values (where it is harmless): the content must not choose its own indentation
+	blanks := []string{" ", "  ", "    ", "      ", "\u00a0", "\u3000", "\u2003 ", " \u00a0 ", "\u1680", "\u2028", "\u2029x", "\u202f", "\u205f", "\u2000\u200a", "\u0085", " \t "}
+	for _, b := range blanks {
+		for _, w := range []string{"Expires: never", "Subject: CN=Forged Root", "", "x"} {
+			s := b + w
+			add(file.Info{Description: s})
+			add(file.Info{Description: "d", Attributes: []file.Attribute{{Name: s, Value: s}}})
+			add(file.Info{Description: "key", Attributes: []file.Attribute{{Name: "Created", Value: "2020-01-01"}}, Children: []file.Info{{Description: s, Attributes: []file.Attribute{{Name: "Usage", Value: "sign"}}}}})
+			add(file.Info{Description: "p", Children: []file.Info{{Description: "c", Children: []file.Info{{Description: s, Attributes: []file.Attribute{{Name: s, Value: "v"}}}}}}})
+			if !strings.ContainsAny(s, "/\x00") && s != "" {
+				emit("cliname", hxs(s))
+				emit("cliname", hxs(s+".pem"))
+			}
+		}
+	}
+	words = append(words, blanks...)
 	// random trees
 	n := 3000
 	if tier == "thorough" {
